@@ -13,6 +13,12 @@
 #ifndef MAXSPAN
 #define MAXSPAN 65535
 #endif
+#ifndef FORKED
+#define FORKED 0  // the first FORKED span parameters (in list order) take their length from a complete case split over 0..FORKMAX
+#endif            // instead of a symbolic value: lists with three or more spans get a solver verdict this way
+#ifndef FORKMAX
+#define FORKMAX 3
+#endif
 #ifndef RESERVED
 #define RESERVED 0  // 1: the vector is first constructed with symbolic smaller capacity and then reserve()d (C10)
 #endif
@@ -122,16 +128,39 @@ static usize nondet_len()
 #endif
 }
 
+static usize span_len(usize ordinal)
+{
+    if (ordinal < FORKED)
+    {
+        usize n = verif_nondet_size();
+        verif_assume(n <= FORKMAX);
+        return verif_fork(n);
+    }
+    return nondet_len();
+}
+
 extern "C" void h_entry()
 {
     usize fixed[N] = {};
+    usize spans_before[N] = {};
+    {
+        usize c = 0;
+        for (usize j = 0; j < N; ++j)
+        {
+            spans_before[j] = c;
+            if (LT::kind[j] != K_PLAIN)
+            {
+                ++c;
+            }
+        }
+    }
     usize len[NELEM][N];
     constexpr auto cmax = count_max(LT{});
     for (usize j = 0; j < N; ++j)
     {
         if (LT::kind[j] == K_FIXED)
         {
-            fixed[j] = nondet_len();
+            fixed[j] = span_len(spans_before[j]);
         }
     }
     usize bytes = 0;
@@ -141,7 +170,7 @@ extern "C" void h_entry()
         {
             if (LT::kind[j] == K_VARY)
             {
-                len[e][j] = nondet_len();
+                len[e][j] = span_len(spans_before[j]);
                 verif_assume(len[e][j] <= cmax[j - 1]);
                 bytes += len[e][j] * LT::vsize[j];
             }
